@@ -106,16 +106,16 @@ Proof.
   unfold endsafe in A. now apply andb_prop in A as [A _].
 Qed.
 
-(* F3: with the template [-{l}] the renderer produces [--x] *)
+(* F3 (residual): the template [-{l:14}] parenthesises a negated operand, but a negative number literal (or an s-string
+   that starts with a minus sign) is an atom of full strength: the renderer produces [--3] *)
 Definition neg_tmpl : tmpl := [Some [c_minus]; None].
-Lemma double_minus_out T : In neg_tmpl T -> Out T [45; 45; 120].
+Lemma double_minus_out T : In neg_tmpl T -> Out T [45; 45; 51].
 Proof.
   intros H.
-  change [45; 45; 120] with (inst neg_tmpl [inst neg_tmpl [[120]]]).
-  apply O_inst; [exact H|]. constructor; [|constructor].
+  change [45; 45; 51] with (inst neg_tmpl [[45; 51]]).
   apply O_inst; [exact H|]. constructor; [|constructor].
   apply O_atom. reflexivity.
 Qed.
 
 Theorem single_statement_refuted T : In neg_tmpl T -> exists s, Out T s /\ no_opener s = false.
-Proof. intros H. exists [45; 45; 120]. split; [now apply double_minus_out | reflexivity]. Qed.
+Proof. intros H. exists [45; 45; 51]. split; [now apply double_minus_out | reflexivity]. Qed.
